@@ -24,6 +24,87 @@ def _kinds_in(func_node):
     return out
 
 
+
+def check_closed_conn_uncached(ck: Checker, rid: str):
+    """Typestate of the per-thread connection cache: a connection that is closed is taken out of the cache in the same
+    step.  `_callmethod` uses whatever `tls.connection` holds and only connects when the attribute is missing: a closed
+    connection left in the cache makes the next proxy of that server in this thread fail with OSError('handle is
+    closed') although the hosted object is alive."""
+    mod = ck.repo.module(SERVERPROC)
+    n_sites = 0
+    for f in mod.functions.values():
+        if f.cls is None or f.cls.name != 'BaseProxy':
+            continue
+        # aliases of the cached connection: conn = tls.connection / getattr(tls, 'connection', ...)
+        alias = {}
+        for n in walk_shallow_func(f.node):
+            if isinstance(n, ast.Assign) and len(n.targets) == 1 and isinstance(n.targets[0], ast.Name):
+                v = n.value
+                if isinstance(v, ast.Attribute) and v.attr == 'connection':
+                    alias[n.targets[0].id] = dotted(v)
+                elif isinstance(v, ast.Call) and dotted(v.func) == 'getattr' and len(v.args) >= 2 and isinstance(v.args[1], ast.Constant) and v.args[1].value == 'connection' and dotted(v.args[0]):
+                    alias[n.targets[0].id] = dotted(v.args[0]) + '.connection'
+        cfg = None
+        for n in walk_shallow_func(f.node):
+            if isinstance(n, ast.Call) and method_of(n)[1] == 'close' and method_of(n)[0] is not None:
+                r = method_of(n)[0]
+                cached = dotted(r) if (isinstance(r, ast.Attribute) and r.attr == 'connection') else alias.get(r.id) if isinstance(r, ast.Name) else None
+                if not cached or not (cached.split('.')[0] in ('tls', 'self') and '_tls' in cached or cached.startswith('tls.')):
+                    continue
+                n_sites += 1
+                if cfg is None:
+                    cfg = build_cfg(f, ck.repo, None)
+                    ck.analysed_func(f, cfg)
+                close_nodes = [k for k in cfg.nodes if header_expr(k) is not None and any(c is n for c in calls_in(header_expr(k)))]
+                removes = {k.id for k in cfg.nodes if (isinstance(k.ast, ast.Delete) and any(dotted(t) == cached for t in k.ast.targets)) or (isinstance(k.ast, ast.Assign) and any(dotted(t) == cached for t in k.ast.targets)) or (header_expr(k) is not None and any(dotted(c.func) == 'delattr' and len(c.args) == 2 and dotted(c.args[0]) == cached.rsplit('.', 1)[0] and isinstance(c.args[1], ast.Constant) and c.args[1].value == 'connection' for c in calls_in(header_expr(k))))}
+                p = path_avoiding(cfg, [e for k in close_nodes for e in cfg.normal_succ(k.id)], {cfg.exit_return}, avoid=removes) if close_nodes else None
+                if p is not None and path_avoiding(cfg, [cfg.entry], {k.id for k in close_nodes}, avoid=removes) is None:
+                    p = None  # taken out of the cache before it is closed
+                ck.ob(rid, f, n, bool(close_nodes) and p is None, f'`{norm_text(n)}` is followed on every path by the removal of `{cached}` from the cache' if close_nodes and p is None else f'`{norm_text(n)}` closes the cached connection `{cached}` but a path leaves {f.name} with the closed connection still cached: the next proxy call of this thread to the same server uses it and fails with OSError(\'handle is closed\') although the hosted object is alive', path=fmt_path(cfg, p) if p else '')
+    ck.need(n_sites >= 1, 'BaseProxy: no close of the cached per-thread connection found')
+
+
+def check_proxy_decision(ck: Checker, rid: str):
+    """Whether a method returns a live proxy or a copy is decided by the method table (`method_to_typeid`) alone, never
+    by the value the method happened to return: an empty list / dict / 0 returned by a mapped method is still hosted,
+    otherwise the caller mutates a detached copy and later calls (container no longer empty) return a real proxy that
+    disagrees with it."""
+    f = ck.repo.func(SERVERPROC, 'Server._callmethod')
+    cfg = build_cfg(f, ck.repo, None)
+    ck.analysed_func(f, cfg)
+    creates = [k for k in cfg.nodes if header_expr(k) is not None and any(dotted(c.func) == 'self.create' for c in calls_in(header_expr(k)))]
+    ck.need(creates, f'{f.key}: no self.create(...) call')
+    cr = creates[0]
+    call = [c for c in calls_in(header_expr(cr)) if dotted(c.func) == 'self.create'][0]
+    resv = call.args[2].id if len(call.args) >= 3 and isinstance(call.args[2], ast.Name) else None
+    ck.need(resv, f'{f.key}: the hosted value passed to self.create is not a plain name')
+    # values derived from the result
+    tainted = {resv}
+    changed = True
+    while changed:
+        changed = False
+        for n in walk_shallow_func(f.node):
+            if isinstance(n, ast.Assign) and any(isinstance(x, ast.Name) and x.id in tainted for x in ast.walk(n.value)):
+                for t in n.targets:
+                    if isinstance(t, ast.Name) and t.id not in tainted:
+                        tainted.add(t.id)
+                        changed = True
+    # tests that decide between the create and a plain return: create reachable on one label only
+    probs = []
+    n_tests = 0
+    for t in cfg.nodes:
+        if t.kind != 'test':
+            continue
+        reach = {lab: cr.id in reachable(cfg, [e.dst for e in cfg.succ[t.id] if e.kind == lab]) or any(e.dst == cr.id for e in cfg.succ[t.id] if e.kind == lab) for lab in ('T', 'F')}
+        if reach['T'] == reach['F']:
+            continue
+        n_tests += 1
+        used = {x.id for x in ast.walk(t.ast) if isinstance(x, ast.Name)} & tainted
+        if used:
+            probs.append(f'L{t.lineno}: `{norm_text(t.ast)}` lets the returned value (`{sorted(used)[0]}`) decide whether a proxy is created: a mapped method that returns an empty container / 0 / None hands out a detached copy instead of a live proxy')
+    ck.ob(rid, f, cr.ast, not probs and n_tests >= 1, '; '.join(probs) if probs else f'the proxy / copy decision before `{norm_text(call)[:50]}` depends on the method table only ({n_tests} test(s))')
+
+
 def _stdlib_convert_to_error_kinds():
     spec = importlib.util.find_spec('multiprocessing.managers')
     src = open(spec.origin).read()
@@ -140,6 +221,11 @@ def run(ck: Checker):
 
     with ck.as_rule('C14-8', 'exception transport: the RemoteException obligations C15-1..5, on which "carries the server-side traceback" rests', minimum=5):
         c15.run(ck)
+    # ------------------------------------------------------------------ C14-10 / C14-11
+    ck.rule('C14-10', 'a usable proxy stays usable: a cached per-thread connection that is closed is removed from the cache on every path (typestate closed => not cached; MUSTPASS)', minimum=1)
+    check_closed_conn_uncached(ck, 'C14-10')
+    ck.rule('C14-11', 'proxy or copy is decided by the method table alone: no test between the call of the hosted method and Server.create depends on the returned value (DATAFLOW)', minimum=1)
+    check_proxy_decision(ck, 'C14-11')
     # ------------------------------------------------------------------ C14-7
     ck.rule('C14-7', "the in-process shortcut is taken only for proxies of this very server: every function that receives a token obtains the server with get_server(<token>.address), and get_server returns the running server only when the addresses agree (AGREE)", minimum=2)
     check_shortcut_address(ck, 'C14-7')
